@@ -231,7 +231,19 @@ def check_c16(pid, tier):
     return c16.check(pid, tier)
 
 
-CHECKS = {"C16": check_c16, "C12": check_c12, "C19": check_c19, "C11": check_c11, "C10": check_c10, "C04": check_g7, "C13": check_g7, "C14": check_g7, "C17": check_c17, "C15": check_c15, "C18": check_c18, "C02": check_g4, "C03": check_g4, "C05": check_g1, "C07": check_g1, "C09": check_g1, "C08": check_g2}
+def check_c06(pid, tier):
+    from . import c06
+
+    return c06.check06(pid, tier)
+
+
+def check_c20(pid, tier):
+    from . import c06
+
+    return c06.check20(pid, tier)
+
+
+CHECKS = {"C20": check_c20, "C06": check_c06, "C16": check_c16, "C12": check_c12, "C19": check_c19, "C11": check_c11, "C10": check_c10, "C04": check_g7, "C13": check_g7, "C14": check_g7, "C17": check_c17, "C15": check_c15, "C18": check_c18, "C02": check_g4, "C03": check_g4, "C05": check_g1, "C07": check_g1, "C09": check_g1, "C08": check_g2}
 
 
 def main(argv):
